@@ -7,6 +7,7 @@ import (
 	"strings"
 
 	"google.golang.org/protobuf/proto"
+	"google.golang.org/protobuf/reflect/protoreflect"
 
 	"verif/internal/mon"
 	"verif/internal/wire"
@@ -30,7 +31,8 @@ type gen struct {
 
 // msgs materialises a sequence of message kinds:
 //
-//	E empty, T tiny {seq}, X JSON-hostile text, D<n> n PRF bytes, A exactly at the limit
+//	E empty, T tiny {seq}, X JSON-hostile text, D<n> n PRF bytes, A exactly at the limit,
+//	H<i> / I<i> hostileStrings[i] as the last (text) / first (id) field
 func (g *gen) msgs(kinds []string, tc tcombo, limit int) [][]byte {
 	out := [][]byte{}
 	for i, k := range kinds {
@@ -43,6 +45,17 @@ func (g *gen) msgs(kinds []string, tc tcombo, limit int) [][]byte {
 			m = mkChunk(seq, nil, "")
 		case k == "X":
 			m = mkChunk(seq, nil, `}{"\x`)
+		case k[0] == 'H' || k[0] == 'I':
+			// hostile string in the last (text) or first (id) field
+			var i int
+			fmt.Sscanf(k[1:], "%d", &i)
+			h := hostileStrings[i%len(hostileStrings)]
+			if k[0] == 'H' {
+				m = mkChunk(seq, nil, h)
+			} else {
+				m = mkChunk(seq, nil, "")
+				setField(m, "id", protoreflect.ValueOfString(h))
+			}
 		case k == "A":
 			if limit <= 0 {
 				limit = 200
@@ -77,6 +90,7 @@ type bodyOpt struct {
 	sep      string
 	trailing bool
 	pad      int
+	style    int // JSON string spelling (jsonQuote)
 }
 
 // build fills Body and Segs of a message-stream case from its Msgs.
@@ -90,14 +104,14 @@ func build(c *Case, o bodyOpt) {
 		// one undelimited request message
 		if len(c.Msgs) > 0 {
 			if c.Codec == "json" {
-				stream = []byte(chunkJSON(unmarshalAs(chunkDesc(), c.Msgs[0])))
+				stream = []byte(chunkJSONStyle(unmarshalAs(chunkDesc(), c.Msgs[0]), o.style))
 			} else {
 				stream = c.Msgs[0]
 			}
 			segs = []Seg{{0, 0, len(stream)}}
 		}
 	case c.T == "http" && c.Codec == "json":
-		stream, segs = jsonBody(c.Msgs, o.sep, o.trailing)
+		stream, segs = jsonBody(c.Msgs, o.sep, o.trailing, o.style)
 	case c.T == "http":
 		stream, segs = delimBody(c.Msgs, o.pad)
 	default:
@@ -322,6 +336,7 @@ func RunC06(r *mon.Run) {
 	g.laneTruncation()
 	g.laneResponses()
 	g.laneInterleave()
+	g.laneJSONStrings()
 	g.laneReal()
 	g.laneConcurrent()
 
@@ -498,6 +513,92 @@ func (g *gen) laneInterleave() {
 				build(c, bodyOpt{})
 				g.sweepSchedules(c, 0, samples)
 			}
+		}
+	}
+}
+
+// laneJSONStrings: JSON messages whose string values are hard on a
+// brace-counting scanner (hostileStrings, three spellings), in the last and
+// in the first field, followed by further messages; the body is split at
+// every single offset, read byte-wise and in one read, and cut at every
+// offset.
+func (g *gen) laneJSONStrings() {
+	r := g.r
+	tcs := []tcombo{{"http", "json", ""}}
+	if r.Thorough() {
+		tcs = append(tcs, tcombo{"http", "json", "gzip"})
+	}
+	nh := len(hostileStrings)
+	idx := 0
+	for _, tc := range tcs {
+		for i := 0; i < nh; i++ {
+			h, id, h2 := fmt.Sprintf("H%d", i), fmt.Sprintf("I%d", i), fmt.Sprintf("H%d", (i*7+3)%nh)
+			seqs := [][]string{{h, "T"}, {"T", h, h}, {id, "E", h2}}
+			if r.Thorough() {
+				seqs = append(seqs, []string{h}, []string{id, id, "T"}, []string{h, h2, id, "D9"})
+			}
+			for si, kinds := range seqs {
+				for style := 0; style < 3; style++ {
+					if !r.Thorough() && style != (i+si)%3 {
+						continue
+					}
+					idx++
+					shape := []string{"cs", "bidi"}[idx%2]
+					c := &Case{T: tc.T, Codec: tc.Codec, CE: tc.CE, Shape: shape, Echo: shape == "bidi", EchoMode: []string{"", "long"}[idx/2%2], Trunc: -1}
+					c.Msgs = g.msgs(kinds, tc, 0)
+					if shape == "cs" {
+						c.Reply = [][]byte{g.reply(len(kinds))}
+					}
+					build(c, bodyOpt{sep: []string{"", "\n", " "}[idx%3], trailing: idx%4 == 0, style: style})
+					n := len(c.Body)
+					if tc.CE == "gzip" {
+						g.sweepSchedules(c, 0, 1)
+						continue
+					}
+					// one read, byte reads, a random partition
+					g.sweepSchedules(c, 0, 1)
+					// a single split at every offset
+					for t := 1; t < n; t++ {
+						d := clone(c)
+						d.Cuts, d.EOFWithData, d.Sched = []int{t}, t%2 == 0, "split-at-every-offset"
+						g.run(d)
+					}
+					// the body ends at every offset
+					if si == 0 || r.Thorough() {
+						offs := make([]int, 0, n+1)
+						for t := 0; t <= n; t++ {
+							offs = append(offs, t)
+						}
+						g.sweepTruncationLight(c, offs)
+					}
+				}
+			}
+		}
+	}
+	// a single undelimited request message and replies carrying the strings
+	for i := 0; i < nh; i++ {
+		tc := tcombo{"http", "json", ""}
+		h, id := fmt.Sprintf("H%d", i), fmt.Sprintf("I%d", i)
+		c := &Case{T: "http", Codec: "json", Shape: "ss", Trunc: -1, Sched: "one-read"}
+		c.Msgs = g.msgs([]string{h}, tc, 0)
+		c.Reply = g.msgs([]string{id, h, "T", h}, tc, 0)
+		build(c, bodyOpt{style: i % 3})
+		g.sweepSchedules(c, 0, 1)
+	}
+}
+
+// sweepTruncationLight: every given offset, one read, plain end of body and
+// transport error.
+func (g *gen) sweepTruncationLight(c *Case, offsets []int) {
+	for _, t := range offsets {
+		for mode := 0; mode < 2; mode++ {
+			d := clone(c)
+			d.Trunc, d.Cuts, d.Sched = t, nil, "one-read"
+			if t > 2 {
+				d.Cuts, d.Sched = []int{t / 2}, "two-reads"
+			}
+			d.TruncErr = mode == 1
+			g.run(d)
 		}
 	}
 }
